@@ -693,8 +693,8 @@ def run(tier, seed):
     lib.require_ok(r, "Trace_ZRings")
     verd = {t[1] - 1: t[2:] for t in r.tuples if t[0] == "V"}
     fails = {}
-    for t in r.tuples:
-        if t[0] == "F":
+    for t in r.json_lines:
+        if isinstance(t, list) and t and t[0] == "F":
             fails.setdefault(t[1] - 1, []).append((t[2] - 1, t[3], t[4], t[5]))
     if len(verd) != len(traces):
         raise lib.MachineryError(f"verdicts not total: {len(verd)} of {len(traces)}")
